@@ -725,6 +725,185 @@ func clientSendPath(name, history string, bound int) *vx.Scenario {
 	return sc
 }
 
+// ---- 6. the same send path, whatever the MANAGER (and its socket) went through BEFORE the connection under study:
+// every sequence of lifecycle operations of the client API - Manager.Close, Manager.Open, ClientSocket.Disconnect,
+// a successful ClientSocket.Connect, a ClientSocket.Connect that is refused because the server is unreachable - up to
+// a given length, each operation followed by a pause of `gap` (0 = the next operation follows back to back), and
+// then the connection under study. The operations may come before the manager has ever been connected (a user who
+// cancels the first attempt) or after. The manager does not reconnect by itself (NoReconnection) and there is no
+// heartbeat inside the scenario, so nothing but the send path itself can flush a packet:
+//   - the CONNECT packet the socket hands to the manager's send path reaches the server (a reachable server on a link
+//     without latency) within the settle time;
+//   - an event emitted on the connected socket reaches the server at the virtual instant it was emitted.
+var lifecycleSteps = []string{"manager.Close", "socket.Disconnect", "socket.Connect", "refused-socket.Connect", "manager.Open"}
+
+func lifecycleHistories(maxLen int) [][]string {
+	out := [][]string{{}}
+	prev := [][]string{{}}
+	for l := 1; l <= maxLen; l++ {
+		var next [][]string
+		for _, h := range prev {
+			for _, st := range lifecycleSteps {
+				next = append(next, append(append([]string{}, h...), st))
+			}
+		}
+		out = append(out, next...)
+		prev = next
+	}
+	return out
+}
+
+func clientSendPathAfterLifecycle(name string, history []string, gap time.Duration, bound int) *vx.Scenario {
+	sc := &vx.Scenario{Name: name, Bound: bound, Horizon: 10 * time.Minute}
+	sc.Body = func(e *vsched.Exec) func() vx.Result {
+		vsched.SetExploring(false)
+		scfg := &sio.ServerConfig{}
+		scfg.EIO.PingInterval = 30 * time.Minute // no heartbeat inside the scenario: nothing else flushes anything
+		scfg.EIO.PingTimeout = 30 * time.Minute
+		srv, mgr, link := vrig.NewSioPair(scfg, nil) // NoReconnection: the manager never connects by itself
+		var v vsched.Var
+		arrived := map[string]time.Duration{}
+		connectsSeen := 0 // CONNECT packets the server has seen
+		srv.Use(func(s sio.ServerSocket, h *sio.Handshake) any {
+			s.OnEvent("m", func(tag string) { v.Do(func() { arrived[tag] = e.Clock() }) })
+			v.Do(func() { connectsSeen++ })
+			return nil
+		})
+		srv.OnConnection(func(sio.ServerSocket) {})
+		sock := mgr.Socket("/", nil)
+		connected, mgrOpen := false, false
+		sock.OnConnect(func() { v.Do(func() { connected = true }) })
+		lastDisconnect := ""
+		sock.OnDisconnect(func(why sio.Reason) {
+			v.Do(func() { connected = false; lastDisconnect = fmt.Sprintf("%q at %v", why, e.Clock()) })
+		})
+		mgr.OnOpen(func() { v.Do(func() { mgrOpen = true }) })
+		mgr.OnClose(func(sio.Reason, error) { v.Do(func() { mgrOpen = false }) })
+		flags := func() (c, o bool, n int) {
+			v.Do(func() { c, o, n = connected, mgrOpen, connectsSeen })
+			return
+		}
+		// connect on a reachable server. "" = connected; otherwise what was observed instead.
+		connect := func() (violation string) {
+			if c, _, _ := flags(); c {
+				return ""
+			}
+			_, _, n0 := flags()
+			t0 := e.Clock()
+			sock.Connect()
+			vrig.Settle(2 * time.Second)
+			c, o, n := flags()
+			switch {
+			case c:
+				return ""
+			case !o:
+				// not what this check is about: the manager did not even open. Never pass silently.
+				vsched.Await(func() bool { return false })
+			case n == n0:
+				return fmt.Sprintf("socket.Connect() at %v: the manager opened its connection (reachable server, link without latency, no reconnection, no heartbeat), so the socket's CONNECT packet was handed to the send path, but the server has not seen it %v later", t0, e.Clock()-t0)
+			default:
+				// the server answered the CONNECT and the socket did not report its connect event: not a statement of C19
+				vsched.Await(func() bool { return false })
+			}
+			return ""
+		}
+		pause := func() {
+			if gap > 0 {
+				vrig.Settle(gap)
+			}
+		}
+		problem := ""
+		// The socket learns of a close through a handler that runs on its own goroutine; until then it takes itself
+		// for connected and ignores Connect. Back to back means no virtual time in between, not "before the socket
+		// has reported the disconnect".
+		awaitDisconnect := func(was bool) {
+			if was {
+				vsched.Await(func() bool { return !connected })
+			}
+		}
+		for _, st := range history {
+			was, _, _ := flags()
+			switch st {
+			case "manager.Close":
+				mgr.Close()
+				awaitDisconnect(was)
+			case "manager.Open":
+				mgr.Open()
+			case "socket.Disconnect":
+				sock.Disconnect()
+				awaitDisconnect(was)
+			case "socket.Connect":
+				problem = connect()
+			case "refused-socket.Connect":
+				// the server is unreachable during this attempt (if the socket is connected, Connect does nothing)
+				link.V.Do(func() { link.Down = true })
+				sock.Connect()
+				vrig.Settle(time.Second)
+				link.V.Do(func() { link.Down = false })
+			}
+			if problem != "" {
+				break
+			}
+			pause()
+		}
+		if problem == "" {
+			problem = connect()
+		}
+		const stuckConnect = "client send path: a socket's CONNECT packet waits in the manager's packet queue (the manager/socket were closed, opened or refused before this connection)"
+		const stuckEvent = "client send path: an event emitted on a connected socket waits in the manager's packet queue (the manager/socket were closed, opened or refused before this connection)"
+		if problem != "" {
+			return func() vx.Result {
+				var r vx.Result
+				r.Outcome = "CONNECT not transmitted"
+				r.Violate(stuckConnect, "history %q, pause after each operation %v: %s", history, gap, problem)
+				return r
+			}
+		}
+		vsched.SetExploring(true)
+		sent := map[string]time.Duration{}
+		for _, tag := range []string{"after-1", "after-2"} {
+			sent[tag] = e.Clock()
+			sock.Emit("m", tag)
+			vsched.Sleep(time.Minute) // nothing else happens in this minute
+		}
+		return func() vx.Result {
+			var r vx.Result
+			var late []string
+			for _, tag := range []string{"after-1", "after-2"} {
+				at, ok := arrived[tag]
+				switch {
+				case !ok:
+					late = append(late, fmt.Sprintf("%s emitted at %v never reached the server", tag, sent[tag]))
+				case at > sent[tag]:
+					late = append(late, fmt.Sprintf("%s emitted at %v reached the server at %v", tag, sent[tag], at))
+				}
+			}
+			sb, _ := sio.VerifClientSocketBuffers(sock)
+			r.Outcome = fmt.Sprintf("late=%d buffered=%d connected=%v", len(late), sb, connected)
+			if !connected {
+				r.Outcome += " (the socket reported the disconnect " + lastDisconnect + fmt.Sprintf("; emits at %v)", sent)
+			}
+			if len(late) > 0 && connected {
+				r.Violate(stuckEvent, "history %q, pause after each operation %v, then the socket connected: %v; frames left in the socket's send buffer at the end: %d (the socket reported no disconnect)", history, gap, late, sb)
+			}
+			return r
+		}
+	}
+	return sc
+}
+
+func lifecycleName(history []string, gap time.Duration) string {
+	h := "fresh-manager"
+	if len(history) > 0 {
+		h = strings.Join(history, ",")
+	}
+	g := "back-to-back"
+	if gap > 0 {
+		g = "paused"
+	}
+	return fmt.Sprintf("client-send-path/lifecycle/%s/%s", g, h)
+}
+
 func scenarios(tier string) []*vx.Scenario {
 	big := 3 // preemption bound for the scenarios whose unbounded space does not fit the quick budget
 	// thorough: iterative preemption bounding up to 8 for the spaces that do not fit the budget unbounded
@@ -764,6 +943,18 @@ func scenarios(tier string) []*vx.Scenario {
 		clientSendPath("client-send-path/after-a-volatile-emit", "volatile-emit", 1),
 		clientSendPath("client-send-path/retry-after-an-ack-timeout", "retry-after-an-ack-timeout", 1),
 	}
+	// lifecycle histories before the connection under study: every sequence of up to 2 (thorough: 3) operations,
+	// once with a pause after each operation and once back to back
+	maxHistory := 2
+	if tier == "thorough" {
+		maxHistory = 3
+	}
+	for _, h := range lifecycleHistories(maxHistory) {
+		s = append(s, clientSendPathAfterLifecycle(lifecycleName(h, time.Second), h, time.Second, 1))
+		if len(h) > 0 {
+			s = append(s, clientSendPathAfterLifecycle(lifecycleName(h, 0), h, 0, 1))
+		}
+	}
 	if tier == "thorough" {
 		s = append(s,
 			pollQueueScenario("pollQueue/2c-3p", 2, [][]int{{1}, {1}, {1}}, false, -1),
@@ -785,7 +976,8 @@ func main() {
 		Property: "C19",
 		Level:    "model_checking",
 		Rule: "every interleaving (happens-before pruned; without preemption bound where the scenario list says -1, else iteratively to preemption bound 3 (quick) / 8 (thorough), completed bound reported) of 1-2 consumers with 1-3 producers over the real pollQueue, the real packetQueue " +
-			"(drainer, closer, reset) and the real polling.ServerTransport; an execution is non-trivial when its schedule deviates from the default run-until-blocked order",
+			"(drainer, closer, reset) and the real polling.ServerTransport; the whole client send path (rig R3) after every history of the socket (ack timeouts, buffered and volatile emits, retries) and after every sequence of up to 2 (thorough 3) " +
+			"lifecycle operations (Manager.Close/Open, ClientSocket.Disconnect/Connect, a refused Connect; paused or back to back) before the connection under study, 1 deviation; an execution is non-trivial when its schedule deviates from the default run-until-blocked order",
 		Scenarios: scenarios,
 		Budget: func(tier string) time.Duration {
 			if tier == "thorough" {
